@@ -238,7 +238,7 @@ def setitem(I, o, k, v):
         I.throw('TypeError', 'object does not support item assignment')
     if isinstance(o, VDict):
         k = I.hashable(k)
-        I.write(o, f'item {k!r}')
+        I.write(o, f'item {k!r}', key=k)
         o.maybe.pop(k, None)
         o.d[k] = v
         return
@@ -263,7 +263,7 @@ def delitem(I, o, k):
         I.resolve_maybe(d, k)
         if k not in d.d:
             I.throw('KeyError', k)
-        I.write(d, f'del item {k!r}')
+        I.write(d, f'del item {k!r}', key=k)
         del d.d[k]
         return
     l = ll(o)
@@ -510,7 +510,13 @@ def num_binop(I, op, a, b):
         if ka == 'bool' and kb == 'bool':
             x, y = zbool(a), zbool(b)
             return mk({'|': z3.Or(x, y), '&': z3.And(x, y), '^': z3.Xor(x, y)}[op], 'bool')
-        raise Unsupported('bitwise op on symbolic ints')
+        if ka in ('int', 'bool') and kb in ('int', 'bool'):
+            # bitwise ops on symbolic ints are modelled on {0, 1} only (soft side condition: outside it the path is undecided)
+            x, y = zint(a), zint(b)
+            I.ctx.oblige('model-limit: bitwise operands are 0/1', z3.And(z3.Or(x == 0, x == 1), z3.Or(y == 0, y == 1)), soft=True)
+            e = {'&': x * y, '|': x + y - x * y, '^': x + y - 2 * x * y}[op]
+            return mk(e, 'int')
+        raise Unsupported(f'bitwise op on symbolic non-integers ({ka}, {kb}: {a!r} {op} {b!r})'[:300])
     real = 'real' in (ka, kb) or op == '/'
     if op == '**':
         if isinstance(b, Sym):
@@ -775,11 +781,16 @@ def arr_map(I, f, a, dtype=None):
 
 
 def index_in_range(I, i, n, what):
-    """numpy integer index i into a dimension of size n (negative wraps)"""
-    if isinstance(i, Sym) or isinstance(n, Sym):
-        ok = z3.And(zint(i) >= 0, zint(i) < zint(n))
-        I.ctx.oblige(f'numpy.index in range ({what})', ok)
+    """numpy integer index i into a dimension of size n: negative indices wrap once, anything else out of range raises"""
+    if type(i).__name__ == 'FlatIdx':
         return i
+    if isinstance(i, Sym) or isinstance(n, Sym):
+        neg = I.compare('<', i, 0)
+        i2 = ite(I, neg, num_binop(I, '+', i, n), i)
+        ok = mk(z3.And(zint(i2) >= 0, zint(i2) < zint(n)), 'bool')
+        if not I.truth(ok):
+            I.throw('IndexError', f'index out of bounds ({what})')
+        return i2
     if i < 0:
         i += n
     if not 0 <= i < n:
@@ -788,16 +799,21 @@ def index_in_range(I, i, n, what):
 
 
 def slice_bounds(I, s, n, what):
-    """returns (start, length) of a basic slice with unit step; numpy clips out-of-range bounds and wraps negatives:
-    the engine demands 0 <= start <= stop <= n as a side obligation instead (anything else is a wrapped/clipped window)"""
+    """(start, length) of a basic slice with unit step, with numpy's semantics: negative bounds wrap once, then both are
+    clipped to [0, n]; an empty or inverted window has length 0"""
     if s.step not in (None, 1):
         raise Unsupported('slice step')
     start = 0 if s.start is None else s.start
     stop = n if s.stop is None else s.stop
     if any(isinstance(x, Sym) for x in (start, stop, n)):
-        ok = z3.And(zint(start) >= 0, zint(start) <= zint(stop), zint(stop) <= zint(n))
-        I.ctx.oblige(f'numpy.slice bounds in range, no wrap-around ({what})', ok)
-        return start, num_binop(I, '-', stop, start)
+        def norm(v):
+            v = ite(I, I.compare('<', v, 0), num_binop(I, '+', v, n), v)
+            v = ite(I, I.compare('<', v, 0), 0, v)
+            return ite(I, I.compare('>', v, n), n, v)
+        st, sp = norm(start), norm(stop)
+        ln = num_binop(I, '-', sp, st)
+        ln = ite(I, I.compare('<', ln, 0), 0, ln)
+        return st, ln
     sl = slice(start, stop).indices(n)
     return sl[0], max(0, sl[1] - sl[0])
 
@@ -832,6 +848,8 @@ def arr_index(I, a, k):
     if not shape:
         return a.fn(tuple(p[1] for p in plan))
 
+    afn = a.fn      # contents at the time the view is taken (later writes to the base through other paths are not tracked)
+
     def fn(idx):
         src = []
         it = iter(idx)
@@ -840,7 +858,7 @@ def arr_index(I, a, k):
                 src.append(v)
             else:
                 src.append(num_binop(I, '+', next(it), v))
-        return a.fn(tuple(src))
+        return afn(tuple(src))
     r = Arr(tuple(shape), fn, a.dtype)
     r.base = a.base or a
     r.view_plan = plan
